@@ -547,7 +547,7 @@ def csr_decoder_config(draw, max_subs=5, max_sub_aw=5, dws=CSR_DWS):
             "opts": draw(decoder_opts())}
 
 
-DECODER_OPTS = ("early_q", "alias_decoy", "replace_map", "flip_temp", "subclass", "drop_iface")
+DECODER_OPTS = ("early_q", "alias_decoy", "replace_map", "flip_temp", "subclass", "drop_iface", "alias_window")
 
 
 def decoder_opts():
@@ -560,6 +560,8 @@ def decoder_opts():
                   before the first add()
     flip_temp   - add() receives wiring.flipped(iface) temporaries that nobody else references
     subclass    - the decoder is an instance of a trivial subclass
+    alias_window- (wishbone) the first subordinate is reachable through a second window: its interface gets
+                  another MemoryMap of the same geometry and is add()ed once more at a free address
     drop_iface  - after add() the caller keeps only the signals of a subordinate interface, not the
                   Interface object itself (the decoder has to keep alive what it was given)"""
     return st.fixed_dictionaries({k: st.sampled_from([False] * 5 + [True]) for k in DECODER_OPTS})
@@ -881,6 +883,17 @@ def _build_wb_decoder(cfg, ifaces=None, prefix="w"):
         dec.add(_add_arg(cfg, iface), **kw)
         ifaces.append(iface)
         _mid_elab(dec, cfg, i)
+    dec.aliases = {}
+    if cfg.get("opts", {}).get("alias_window") and ifaces and not given_external:
+        f0 = ifaces[0]
+        eff = max(cfg["al"], maws[0])
+        a0 = align_up(end, eff)
+        if a0 + (1 << eff) <= (1 << dec.bus.memory_map.addr_width):
+            first_map = f0.memory_map
+            f0.memory_map = MemoryMap(addr_width=first_map.addr_width, data_width=first_map.data_width)
+            dec.add(f0, addr=a0, sparse=cfg["subs"][0].get("sparse", False))
+            dec.aliases = {id(first_map): 0}
+            dec.alias_keep = first_map
     _readd(dec, cfg, ifaces, {"sparse": None})
     _alias_decoy(dec, cfg, ifaces,
                  lambda: wishbone.Decoder(addr_width=aw, data_width=cfg["dw"], granularity=cfg["g"],
